@@ -222,12 +222,16 @@ package storage
 // The stored copy of a delivered transaction: what SaveTxState wrote under the txid is what
 // FetchTxState returns for that txid (deep equality up to the codec abstractions of C15), for any
 // store contents and with storage faults (a failed write or read surfaces as an error).
+// (frame = freshonly: besides the store, SaveTxState writes only its own buffer and FetchTxState
+// only the record it decodes — used where callers summarise them instead of inlining them)
 //@ func SaveTxState
 //@   serves C11
 //@   inline
+//@   opt frame = freshonly
 //@ func FetchTxState
 //@   serves C11
 //@   inline
+//@   opt frame = freshonly
 
 //@ func verifSaveFetchTxState
 //@   serves C11
